@@ -16,7 +16,6 @@ package main
 // the canonical body. Dominance is recomputed by cfg.go (ssa's own dominator fields are never read after this).
 
 import (
-	"os"
 	"fmt"
 	"go/constant"
 	"go/token"
@@ -716,9 +715,10 @@ func (c *Ctx) canonicaliseOnce(depth int) *canonStats {
 				nu = unrollLiteralLoops(f)
 			}
 			st.unrolled += nu
-			ns := splitArrays(f) + splitStructs(f)
+			ns := scalarizeStructValues(f) + splitArrays(f) + splitStructs(f)
 			np := promoteLocals(f)
 			np += splitFuncPhiCalls(f)
+			np += splitPhiReturns(f)
 			nt := 0
 			if !noThread[shortPkg(fnPkgPath(f))] {
 				nt = threadJumps(f)
@@ -970,6 +970,12 @@ func promoteLocals(f *ssa.Function) int {
 			}
 			for _, ins := range b.Instrs {
 				switch x := ins.(type) {
+				case *ssa.Alloc:
+					// the allocation itself: a fresh zero cell every time it is executed (a variable of a loop body or of a
+					// closure that was inlined into a loop does not carry its value round the loop)
+					if x == a {
+						cur = zero
+					}
 				case *ssa.Store:
 					if x.Addr == ssa.Value(a) {
 						cur = x.Val
@@ -1312,7 +1318,18 @@ func splitStructs(f *ssa.Function) int {
 	// (cells are created in a first pass so that copies between candidates can refer to them wherever they are allocated)
 	loadFields := map[*ssa.UnOp][]ssa.Value{}
 	var newLocals []*ssa.Alloc
+	// definitions before uses: a whole load is rewritten before the stores and field selections that consume it
+	visitOrder := rpo(f.Blocks)
+	inOrder := map[*ssa.BasicBlock]bool{}
+	for _, b := range visitOrder {
+		inOrder[b] = true
+	}
 	for _, b := range f.Blocks {
+		if !inOrder[b] {
+			visitOrder = append(visitOrder, b)
+		}
+	}
+	for _, b := range visitOrder {
 		var out []ssa.Instruction
 		for _, in := range b.Instrs {
 			switch x := in.(type) {
@@ -2903,9 +2920,6 @@ func resolveFuncCells(h *ssa.Function) int {
 				continue
 			}
 			sts := storesIn(h, cell)
-			if os.Getenv("SPOKCHECK_DEBUG_CELLS") != "" {
-				fmt.Fprintf(os.Stderr, "cell %s in %s: %d stores, %d closures\n", cell.Name(), h.Name(), len(sts), len(closures))
-			}
 			if len(sts) != 1 {
 				continue
 			}
@@ -2935,9 +2949,6 @@ func resolveFuncCells(h *ssa.Function) int {
 					}
 				}
 			}
-			if os.Getenv("SPOKCHECK_DEBUG_CELLS") != "" {
-				fmt.Fprintf(os.Stderr, "  clean=%v val=%T\n", clean, sts[0].Val)
-			}
 			if !clean {
 				continue
 			}
@@ -2962,9 +2973,6 @@ func resolveFuncCells(h *ssa.Function) int {
 								loads = append(loads, u)
 							}
 						}
-					}
-					if os.Getenv("SPOKCHECK_DEBUG_CELLS") != "" {
-						fmt.Fprintf(os.Stderr, "  closure %s fv=%s loads=%d blocks=%d\n", cl.fn.Name(), fv.Name(), len(loads), len(cl.fn.Blocks))
 					}
 					if len(loads) == 0 {
 						continue
@@ -3064,6 +3072,235 @@ func resolveFuncCells(h *ssa.Function) int {
 				removeInstrs(h, map[ssa.Instruction]bool{sts[0]: true})
 				dropDeadClosures(h)
 			}
+		}
+	}
+	return n
+}
+
+// splitPhiReturns undoes the merge an inlined `return helper()` leaves behind: a block that holds nothing but phis and a
+// return, entered only by jumps, is dissolved into one return per predecessor (each with the phi operands of its edge), so
+// that "the return with a nil error" and "the return with the error" are separate sites again, as they are when the code is
+// written out in place.
+func splitPhiReturns(f *ssa.Function) int {
+	n := 0
+	for changed := true; changed; {
+		changed = false
+		for _, b := range f.Blocks {
+			if len(b.Preds) < 2 || b == f.Blocks[0] || b == f.Recover {
+				continue
+			}
+			ret, ok := lastInstr(b).(*ssa.Return)
+			if !ok {
+				continue
+			}
+			var phis []*ssa.Phi
+			simple := true
+			for _, in := range b.Instrs[:len(b.Instrs)-1] {
+				switch x := in.(type) {
+				case *ssa.Phi:
+					phis = append(phis, x)
+				case *ssa.DebugRef:
+				default:
+					simple = false
+				}
+			}
+			if !simple || len(phis) == 0 {
+				continue
+			}
+			for _, p := range b.Preds {
+				if _, isJump := lastInstr(p).(*ssa.Jump); !isJump || len(p.Succs) != 1 || p == b {
+					simple = false
+				}
+			}
+			// the phis are used by the return only
+			users := usersOf(f)
+			for _, phi := range phis {
+				for _, u := range users[phi] {
+					if u != ssa.Instruction(ret) {
+						if up, isPhi := u.(*ssa.Phi); !isPhi || up.Block() != b {
+							simple = false
+						}
+					}
+				}
+			}
+			if !simple {
+				continue
+			}
+			for i, p := range b.Preds {
+				nr := &ssa.Return{}
+				for _, res := range ret.Results {
+					v := res
+					if phi, isPhi := res.(*ssa.Phi); isPhi && phi.Block() == b && i < len(phi.Edges) {
+						v = phi.Edges[i]
+					}
+					nr.Results = append(nr.Results, v)
+				}
+				setField(nr, "pos", ret.Pos())
+				setField(nr, "block", p)
+				if canonOrigOf != nil {
+					if o, has := canonOrigOf[ret]; has {
+						canonOrigOf[nr] = o
+					} else {
+						canonOrigOf[nr] = ret
+					}
+				}
+				p.Instrs[len(p.Instrs)-1] = nr
+				p.Succs = nil
+			}
+			b.Preds = nil
+			pruneUnreachable(f)
+			delete(domCache, f)
+			n++
+			changed = true
+			break
+		}
+	}
+	return n
+}
+
+// ---- struct values -----------------------------------------------------------------------------------------------------------
+//
+// A helper that returns (someStruct, error) leaves, once inlined, a phi of struct values, and a by-value struct parameter
+// leaves `field(load)`; both hide which field flows where. scalarizeStructValues rewrites every field selection of
+//   - a whole-struct load             into a load of that field at the same point,
+//   - a phi of struct values          into a phi of the selected field of each operand,
+//   - the zero value of a struct type into the zero value of the field,
+// after which the whole-struct values are unused and the ordinary splitting and promotion of local cells applies.
+func scalarizeStructValues(f *ssa.Function) int {
+	n := 0
+	// the block an instruction really sits in (the recorded one can be stale after blocks were merged or threaded)
+	blockOf := func(in ssa.Instruction) *ssa.BasicBlock {
+		for _, b := range f.Blocks {
+			for _, x := range b.Instrs {
+				if x == in {
+					return b
+				}
+			}
+		}
+		return nil
+	}
+	for round := 0; round < 8; round++ {
+		changed := false
+		phiCache := map[*ssa.Phi]map[int]*ssa.Phi{}
+		for _, b := range append([]*ssa.BasicBlock(nil), f.Blocks...) {
+			for _, in := range append([]ssa.Instruction(nil), b.Instrs...) {
+				fld, ok := in.(*ssa.Field)
+				if !ok {
+					continue
+				}
+				st, ok := fld.X.Type().Underlying().(*types.Struct)
+				if !ok || fld.Field >= st.NumFields() {
+					continue
+				}
+				ft := st.Field(fld.Field).Type()
+				var repl ssa.Value
+				switch x := fld.X.(type) {
+				case *ssa.Const:
+					repl = ssa.NewConst(nil, ft)
+				case *ssa.UnOp:
+					if x.Op != token.MUL {
+						continue
+					}
+					fa := &ssa.FieldAddr{X: x.X, Field: fld.Field}
+					setField(fa, "typ", types.NewPointer(ft))
+					setField(fa, "pos", fld.Pos())
+					ld := &ssa.UnOp{Op: token.MUL, X: fa}
+					setField(ld, "typ", ft)
+					setField(ld, "pos", fld.Pos())
+					xb := blockOf(x)
+					if xb == nil {
+						continue
+					}
+					insertAfterInstr(xb, x, fa)
+					insertAfterInstr(xb, fa, ld)
+					repl = ld
+				case *ssa.Phi:
+					if phiCache[x] == nil {
+						phiCache[x] = map[int]*ssa.Phi{}
+					}
+					np := phiCache[x][fld.Field]
+					if np == nil {
+						np = &ssa.Phi{Comment: x.Comment + "." + st.Field(fld.Field).Name()}
+						setField(np, "typ", ft)
+						setField(np, "pos", x.Pos())
+						xb := blockOf(x)
+						if xb == nil || len(xb.Preds) != len(x.Edges) {
+							continue
+						}
+						setField(np, "block", xb)
+						for i, e := range x.Edges {
+							var ev ssa.Value
+							if k, isC := e.(*ssa.Const); isC && k.Value == nil {
+								ev = ssa.NewConst(nil, ft)
+							} else {
+								sel := &ssa.Field{X: e, Field: fld.Field}
+								setField(sel, "typ", ft)
+								setField(sel, "pos", fld.Pos())
+								pred := xb.Preds[i]
+								// the operand is defined in (or before) the predecessor: select at its end; a phi operand that is itself a phi of the
+								// same block (a loop) is selected there too, its value on that edge is what the terminator sees
+								last := lastInstr(pred)
+								insertBeforeInstr(pred, last, sel)
+								ev = sel
+							}
+							np.Edges = append(np.Edges, ev)
+						}
+						// phis come first in their block
+						idx := 0
+						for idx < len(xb.Instrs) {
+							if _, isPhi := xb.Instrs[idx].(*ssa.Phi); !isPhi {
+								break
+							}
+							idx++
+						}
+						xb.Instrs = append(xb.Instrs[:idx], append([]ssa.Instruction{np}, xb.Instrs[idx:]...)...)
+						phiCache[x][fld.Field] = np
+					}
+					repl = np
+				default:
+					continue
+				}
+				for _, ob := range f.Blocks {
+					for _, oi := range ob.Instrs {
+						for _, op := range oi.Operands(nil) {
+							if *op == ssa.Value(fld) {
+								*op = repl
+							}
+						}
+					}
+				}
+				removeInstrs(f, map[ssa.Instruction]bool{fld: true})
+				changed = true
+				n++
+			}
+		}
+		if !changed {
+			break
+		}
+	}
+	if n > 0 {
+		// whole-struct loads and phis nobody uses any more
+		for {
+			uses := useCounts(f)
+			dead := map[ssa.Instruction]bool{}
+			for _, b := range f.Blocks {
+				for _, in := range b.Instrs {
+					switch x := in.(type) {
+					case *ssa.Phi:
+						if _, isStruct := x.Type().Underlying().(*types.Struct); isStruct && uses[x] == 0 {
+							dead[in] = true
+						}
+					case *ssa.UnOp:
+						if _, isStruct := x.Type().Underlying().(*types.Struct); isStruct && x.Op == token.MUL && uses[x] == 0 {
+							dead[in] = true
+						}
+					}
+				}
+			}
+			if len(dead) == 0 {
+				break
+			}
+			removeInstrs(f, dead)
 		}
 	}
 	return n
